@@ -236,6 +236,7 @@ def execute(case):
     # ---- (a) the raised instance reaches the caller, exactly when a fault fired --------------
     window = -1
     fired = {}  # emission idx -> [(kind, exception instance, provenance)]
+    fired_at = {}  # emission idx -> [node id], parallel to fired
     cc = {}
     for e in ev:
         if e[0] == "emit":
@@ -244,8 +245,10 @@ def execute(case):
             cc[(e[1], e[2])] = e[3]
         elif e[0] == "fx":
             fired.setdefault(window, []).append((nodes[e[1]]["k"], e[4], e[3]))
+            fired_at.setdefault(window, []).append(e[1])
         elif e[0] == "cx":
             fired.setdefault(window, []).append(("sink", e[3], prov(cc[(e[1], e[2])])))
+            fired_at.setdefault(window, []).append(e[1])
     for idx, exc in enumerate(outcome):
         f = fired.get(idx, [])
         if isinstance(exc, str):
@@ -312,7 +315,11 @@ def execute(case):
             break
     # ---- (c) never checkpointed ------------------------------------------------------------
     for idx, f in fired.items():
-        for kind, x, pv in f:
+        for (kind, x, pv), at in zip(f, fired_at[idx]):
+            if has_multi_ancestor(spec, at):
+                # below a flatten an earlier piece travels without its batch's counter (the known
+                # C04 finding): whether that counter was triggered says nothing about this failure
+                continue
             for k in pv:
                 for rc in rcs.get(k, []):
                     if rc.trigs or rc.count <= 0:
